@@ -37,6 +37,37 @@ pub struct Case {
     pub keep_known: bool,
 }
 
+/// Systematic family: declarations that make bindgen emit one of its helper types
+/// (`__IncompleteArrayField`, `__BindgenBitfieldUnit`, `__BindgenUnionField`, `__BindgenComplex`,
+/// `__BindgenFloat16`, opaque array helpers) placed only inside namespaces of several depths, with
+/// and without C++ namespaces enabled: the helper has to be emitted wherever the use is.
+fn helper_in_namespace_grid() -> Vec<Case> {
+    let bodies: &[(&str, &[&str])] = &[
+        ("struct Pkt { unsigned short len; unsigned char payload[]; };", &[]),
+        ("struct Zl { int n; char tail[0]; };", &[]),
+        ("struct Bf { int a : 3; unsigned b : 9; long long c : 40; };", &[]),
+        ("union Un { int a; float b; char c[5]; };", &["--default-non-copy-union-style", "bindgen_wrapper", "--no-derive-copy"]),
+        ("union Un2 { int a; float b; };", &["--disable-untagged-union"]),
+        ("struct Cx { _Complex double z; _Complex float w; };", &[]),
+        ("struct Hf { __fp16 h; int k; };", &[]),
+        ("struct Big { char c; long double l; } __attribute__((packed)); struct Op { Big b[40]; };", &["--opaque-type", ".*Op"]),
+    ];
+    let wraps: &[(&str, &str)] = &[("namespace outer { ", " }"), ("namespace a { namespace b { ", " } }"), ("namespace a { inline namespace v1 { ", " } }"), ("namespace { ", " }"), ("", "")];
+    let mut v = vec![];
+    for (bi, (body, extra)) in bodies.iter().enumerate() {
+        for (wi, (open, close)) in wraps.iter().enumerate() {
+            for ns in [true, false] {
+                let mut flags: Vec<String> = extra.iter().map(|f| f.to_string()).collect();
+                if ns {
+                    flags.push("--enable-cxx-namespaces".into());
+                }
+                v.push(Case { source: Source::Text { name: format!("helper_ns_{bi}_{wi}.hpp"), text: format!("{open}{body}{close}\n"), clang_args: vec!["-x".into(), "c++".into(), "-std=c++14".into()] }, flags, callbacks: vec![], keep_known: false });
+            }
+        }
+    }
+    v
+}
+
 /// Systematic family: every enum declaration form x awkward enumerator names (Rust keywords,
 /// primitive type names) x repeated / negative / wide values, under every enum style with and
 /// without name prepending. The random generator reaches (style, keyword, duplicate) triples rarely.
@@ -140,6 +171,8 @@ fn alias_grid() -> Vec<Case> {
     }
     cases
 }
+
+const DERIVE_ALL: &[&str] = &["--with-derive-default", "--with-derive-hash", "--with-derive-partialeq", "--with-derive-eq", "--with-derive-partialord", "--with-derive-ord"];
 
 const EXTRA_FLAGS: &[&[&str]] = &[
     &["--sort-semantically"],
@@ -438,7 +471,9 @@ fn layout_class(case: &Case, text: &str, stderr: &str) -> Option<String> {
             g.cpp = true;
             g.normalise();
             // a failing *instantiation* assertion of a template with bit-fields: known class
-            if (stderr.contains("template specialization") || stderr.contains("_open0_")) && g.nodes.iter().any(|n| matches!(n.kind, c07::NodeKind::Template) && n.fields.iter().any(|f| matches!(f, c07::FieldKind::Bitfield(_)))) {
+            // (the generic struct of a template has no layout of its own: neither the padding of
+            // bit-field units nor the storage of virtual bases is represented)
+            if (stderr.contains("template specialization") || stderr.contains("_open0_")) && g.nodes.iter().any(|n| matches!(n.kind, c07::NodeKind::Template) && (n.fields.iter().any(|f| matches!(f, c07::FieldKind::Bitfield(_))) || (n.virtual_bases && !n.bases.is_empty()))) {
                 return Some("layout-assertion/template-instantiation".into());
             }
             let n = failing_cpp_class(stderr)?;
@@ -447,7 +482,8 @@ fn layout_class(case: &Case, text: &str, stderr: &str) -> Option<String> {
             let _ = node;
             // the class itself, or anything it holds by value (members, instantiations, bases), derives
             // from a non-POD base whose tail padding C++ reuses
-            let has_non_pod_base = |k: usize| g.nodes[k].bases.iter().any(|b| g.nodes[*b].dtor || poly[*b] || !g.nodes[*b].bases.is_empty());
+            let through_alias = |b: usize| if let c07::NodeKind::AliasTemplate(t) = &g.nodes[b].kind { *t } else { b };
+            let has_non_pod_base = |k: usize| g.nodes[k].bases.iter().chain(g.nodes[k].tbases.iter().map(|(b, _)| b)).map(|b| through_alias(*b)).any(|b| g.nodes[b].dtor || poly[b] || !g.nodes[b].bases.is_empty() || !g.nodes[b].tbases.is_empty());
             let mut seen = std::collections::BTreeSet::new();
             let mut work = vec![n];
             let mut non_pod_base = false;
@@ -606,17 +642,26 @@ impl Property for C01 {
         let names2 = names.clone();
         let src = prop_oneof![
             4 => program_strategy(GenCfg::everything()).prop_map(Source::Gen),
-            2 => c07::graph_strategy(8).prop_map(Source::Cpp),
+            2 => prop_oneof![c07::graph_strategy(8).boxed(), c07::graph_strategy_tb(8).boxed()].prop_map(Source::Cpp),
             2 => (any::<bool>(), proptest::collection::vec(any::<u16>(), 1..7)).prop_map(|(cpp, picks)| Source::Zoo { cpp, picks }),
             3 => (0..n, proptest::collection::vec(mutate::edit_strategy(), 1..4), 0..n).prop_map(move |(h, edits, s)| {
                 let uses_splice = edits.iter().any(|e| matches!(e, Edit::Splice { .. }));
                 Source::Mut { header: names[h].clone(), edits, splice_from: if uses_splice { Some(names2[s].clone()) } else { None } }
             }),
         ];
-        (src, flags_strategy(), prop_oneof![3 => Just(vec![]), 1 => (0..CALLBACKS.len()).prop_map(|i| vec![CALLBACKS[i].to_string()])])
-            .prop_map(|(source, flags, callbacks)| {
+        (src, flags_strategy(), prop_oneof![3 => Just(vec![]), 1 => (0..CALLBACKS.len()).prop_map(|i| vec![CALLBACKS[i].to_string()])], any::<bool>())
+            .prop_map(|(source, flags, callbacks, derive_all)| {
                 // repository flag lines already carry their own options: mutants keep them
-                let flags = if matches!(source, Source::Mut { .. }) { vec![] } else { flags };
+                let mut flags = if matches!(source, Source::Mut { .. }) { vec![] } else { flags };
+                // class graphs: half of them with every derive requested (a derive through a base
+                // or instantiation that lacks the trait does not compile)
+                if derive_all && matches!(source, Source::Cpp(_) | Source::Zoo { .. }) {
+                    for f in DERIVE_ALL {
+                        if !flags.iter().any(|x| x == f) {
+                            flags.push(f.to_string());
+                        }
+                    }
+                }
                 let callbacks = if matches!(source, Source::Gen(_)) { callbacks } else { callbacks.into_iter().filter(|c| !c.starts_with("item:")).collect() };
                 Case { source, flags, callbacks, keep_known: false }
             })
@@ -629,6 +674,13 @@ impl Property for C01 {
         let mut v: Vec<Case> = corpus::load_all().into_iter().filter(repo_header_usable).map(|h| Case { source: Source::Mut { header: h.name, edits: vec![], splice_from: None }, flags: vec![], callbacks: vec![], keep_known: false }).collect();
         v.extend(enum_grid());
         v.extend(alias_grid());
+        v.extend(helper_in_namespace_grid());
+        // C07's chains of class templates (root feature x links x concrete end) with every derive
+        for c in c07::chain_grid() {
+            if let c07::Case::Dag { graph, .. } = c {
+                v.push(Case { source: Source::Cpp(graph), flags: DERIVE_ALL.iter().map(|f| f.to_string()).collect(), callbacks: vec![], keep_known: false });
+            }
+        }
         v
     }
     fn evaluate(&self, case: &Case, env: &Env) -> Outcome {
